@@ -225,8 +225,12 @@ inline bool arg_matcher(const char *pattern, const char *args)
     const char *arg_str = args;
     bool      arg_match = *pattern || *pattern == *arg_str;
 
-    while(*pattern && *pattern != ':')
-        arg_match &= (*pattern++==*arg_str++);
+    //stop reading arg_str at the first mismatch (at the latest: its
+    //terminating '\0'), the bytes behind the type string are not ours
+    while(*pattern && *pattern != ':') {
+        arg_match = arg_match && (*pattern==*arg_str++);
+        ++pattern;
+    }
 
     if(*pattern==':') {
         if(arg_match && !*arg_str)
@@ -278,8 +282,12 @@ class Port_Matcher
             const char *arg_str = rtosc_argument_string(msg);
             bool      arg_match = *pattern || *pattern == *arg_str;
 
-            while(*pattern && *pattern != ':')
-                arg_match &= (*pattern++==*arg_str++);
+            //stop reading arg_str at the first mismatch (at the latest: its
+            //terminating '\0'), the bytes behind the type string are not ours
+            while(*pattern && *pattern != ':') {
+                arg_match = arg_match && (*pattern==*arg_str++);
+                ++pattern;
+            }
 
             if(*pattern==':') {
                 if(arg_match && !*arg_str)
